@@ -236,18 +236,23 @@ theorem keeps_delayedOne (F : Facts15) (fuel c : Nat) (name : String) (t : Nat) 
     · exact Keeps.pureT _ _
   · exact Keeps.pureT _ _
 
+theorem keeps_delayedBoth (F : Facts15) (fuel : Nat) (order : DelayOrder) (c : Nat) (name : String) (t : Nat) (pop : Bool) :
+    Keeps Tr (delayedBoth F fuel order c name t pop) TrQ := by
+  unfold delayedBoth
+  cases order with
+  | allFirst => exact Keeps.bind (keeps_delayedAll _ _ _ _) (fun t1 => (keeps_delayedOne _ _ _ _ _ _).anyPre)
+  | oneFirst => exact Keeps.bind (keeps_delayedOne _ _ _ _ _ _) (fun t1 => (keeps_delayedAll _ _ _ _).anyPre)
+
 theorem keeps_appendImpl (F : Facts15) (fuel : Nat) (name : String) (t c : Nat) :
     Keeps Tr (appendImpl F fuel name t c) TrQ := by
   unfold appendImpl
-  refine Keeps.bind (keeps_delayedAll _ _ _ _) (fun t1 => ?_)
-  refine Keeps.bind (keeps_delayedOne _ _ _ _ _ _).anyPre (fun t2 => ?_)
+  refine Keeps.bind (keeps_delayedBoth _ _ _ _ _ _ _) (fun t2 => ?_)
   exact Keeps.updCls _ _ _ (fun _ => ⟨rfl, rfl, rfl⟩)
 
 theorem keeps_insertImpl (F : Facts15) (fuel idx : Nat) (name : String) (t c : Nat) :
     Keeps Tr (insertImpl F fuel idx name t c) TrQ := by
   unfold insertImpl
-  refine Keeps.bind (keeps_delayedAll _ _ _ _) (fun t1 => ?_)
-  refine Keeps.bind (keeps_delayedOne _ _ _ _ _ _).anyPre (fun t2 => ?_)
+  refine Keeps.bind (keeps_delayedBoth _ _ _ _ _ _ _) (fun t2 => ?_)
   exact Keeps.updCls _ _ _ (fun _ => ⟨rfl, rfl, rfl⟩)
 
 theorem keeps_forEach (f : Nat → M Unit) (hf : ∀ v, Keeps Tr (f v) TrQ) (l : List Nat) : Keeps Tr (forEach f l) TrQ := by
